@@ -182,10 +182,10 @@ def run(pid, tier, seed, replay=None):
             rep.violation("trace-invariant|%s" % text, {"trace": shard, "tlc": tail}, text)
         for shard, line, ep, op, kind, wf in res["mismatches"]:
             if claims(pid, op, kind, wf):
-                ev = episode_lines(shard, ep)
                 rep.violation("mismatch|%s|%s|%s" % (op, kind, wf),
-                              {"episode": ep, "rejected_op": op, "kind": kind, "wellformed": wf,
-                               "events": [json.loads(x) for x in ev][:60]},
+                              lambda shard=shard, ep=ep, op=op, kind=kind, wf=wf: {
+                                  "episode": ep, "rejected_op": op, "kind": kind, "wellformed": wf,
+                                  "events": [json.loads(x) for x in episode_lines(shard, ep)][:60]},
                               "real WeakDom diverged from WeakDom.tla at op %s (%s, %s) in episode %s" % (op, kind, wf, ep))
             else:
                 others += 1
